@@ -287,6 +287,34 @@ func crashSignature(out string) string {
 	if msg == "" {
 		msg = "process died"
 	}
+	if len(frames) == 0 {
+		// no frame of the repository on the crashing stack (a dependency's own goroutine): name the first
+		// frames of the first goroutine of the dump, whatever package they are in
+		seen := false
+		for _, l := range lines {
+			if strings.HasPrefix(l, "goroutine ") {
+				if seen {
+					break
+				}
+				seen = true
+				continue
+			}
+			if !seen || l == "" || strings.HasPrefix(l, "\t") || strings.HasPrefix(l, "created by") || strings.HasPrefix(l, "panic(") || strings.HasPrefix(l, "runtime.") {
+				continue
+			}
+			f := l
+			if j := strings.LastIndex(f, "("); j > 0 {
+				f = f[:j]
+			}
+			if k := strings.LastIndex(f, "/"); k >= 0 {
+				f = f[k+1:]
+			}
+			frames = append(frames, f)
+			if len(frames) >= 3 {
+				break
+			}
+		}
+	}
 	return msg + " @ " + strings.Join(frames, " < ")
 }
 
